@@ -69,7 +69,7 @@ def operation(func, o1, o2, reindex=True, broadcast=True, constructor=None):
     # make the new axes
     newaxes = Axes()
     for i, ax in enumerate(o1.axes):
-        if ax.values[0] is None:
+        if ax.size == 1 and ax.values[0] is None: # (an axis without labels is not a placeholder)
             # ...make sure no singleton value is included
             newaxes.append(o2.axes[ax.name].copy())
         else:
